@@ -104,14 +104,13 @@ Definition repl_oplog (x : cnode) (rq : request) (id : N) : cnode * option N :=
       | None => (x, None)
       end
   | RqReplicateSnapshot _ names =>
+      (* every name is tried (map + fold without short cut): the existing ones are logged even
+         after a missing one made the whole answer an error *)
       fold_left (fun acc nm =>
                    let '(x0, r0) := acc in
-                   match r0 with
+                   match db_id_of (cn_node x0) nm with
+                   | Some d => (log_append x0 (mkRec id marker_snapshot d 3), r0)
                    | None => (x0, None)
-                   | Some _ => match db_id_of (cn_node x0) nm with
-                               | Some d => (log_append x0 (mkRec id marker_snapshot d 3), Some id)
-                               | None => (x0, None)
-                               end
                    end) names (x, Some id)
   | RqReplicateSet dbn key _ _ | RqReplicateIncrement dbn key _ =>
       let d := db_id_of n dbn in
@@ -140,6 +139,8 @@ Definition fan_out (n : node) (id : N) (req : str) (all : bool) : node :=
         push_member (n_set_pending n0 p') name txt
       else n0) (n_members n) n.
 
+(* fix: a message that cannot be parsed or logged ("Missing DB Id") is dropped; it used to panic,
+   which ended the replication thread for good *)
 Definition repl_one (x : cnode) (msg : str) : cnode :=
   if cn_dead x then x else
   match parse_request msg with
@@ -153,17 +154,17 @@ Definition repl_one (x : cnode) (msg : str) : cnode :=
           | Primary =>
               match oid with
               | Some i => cn_set_node x1 (fan_out n i req false)
-              | None => mkCN n (cn_log x1) (cn_keymap x1) (cn_clients x1) true
+              | None => x1
               end
           | StartingUp =>
               match oid with
               | Some i => cn_set_node x1 (fan_out n i req true)
-              | None => mkCN n (cn_log x1) (cn_keymap x1) (cn_clients x1) true
+              | None => x1
               end
           end
-      | _ => mkCN (cn_node x) (cn_log x) (cn_keymap x) (cn_clients x) true      (* unwrap() on a parse error *)
+      | _ => x
       end
-  | _ => mkCN (cn_node x) (cn_log x) (cn_keymap x) (cn_clients x) true
+  | _ => x
   end.
 
 Definition poll_repl (x : cnode) : cnode :=
